@@ -11,57 +11,70 @@ def H(hash, inv, amt, total, exp, rel, **kw):
     d.update(kw)
     return d
 
-# invoice catalogue shared by the lifecycle families
-INVS = [
-    {"hash": "h1", "amt": 10},                 # 1
-    {"hash": "h1", "amt": 10, "variant": 1},   # 2: another invoice for the same hash
-    {"hash": "h1", "amt": 0},                  # 3: amountless
-    {"hash": "h2", "amt": 10},                 # 4
-    {"hash": "h1", "amt": 10, "hint": True},   # 5: routed through ourselves
-]
+def invs_for(A):
+    """invoice catalogue of the lifecycle families, for amount A"""
+    return [
+        {"hash": "h1", "amt": A},                 # 1
+        {"hash": "h1", "amt": A, "variant": 1},   # 2: another invoice for the same hash
+        {"hash": "h1", "amt": 0},                 # 3: amountless
+        {"hash": "h2", "amt": A},                 # 4
+        {"hash": "h1", "amt": A, "hint": True},   # 5: routed through ourselves
+    ]
+INVS = invs_for(10)
 
-def pool(cfg):
-    """HTLC pool for cfg A-like policies (need = 11 for amount 10)."""
+def need_of(cfg, A):
+    return A + cfg["base"] + A * cfg["ppm"] // 10**6
+
+def pool(cfg, A=10):
+    """HTLC pool for this policy: a set has to bring N = A + fee."""
     h0 = cfg["h0"]; pd = cfg["pdelta"]
+    N = need_of(cfg, A)
+    p1 = N // 2 + 1; p2 = N - p1
     good = [
-        H("h1", 1, 6, 11, h0 + pd + 10, pd + 10),
-        H("h1", 1, 5, 11, h0 + pd + 20, pd + 20),
-        H("h1", 1, 11, 11, h0 + pd + 30, pd + 30),
-        H("h1", 1, 7, 12, h0 + pd + 5, pd + 5),
+        H("h1", 1, p1, N, h0 + pd + 10, pd + 10),
+        H("h1", 1, p2, N, h0 + pd + 20, pd + 20),
+        H("h1", 1, N, N, h0 + pd + 30, pd + 30),
+        H("h1", 1, p1 + 1, N + 1, h0 + pd + 5, pd + 5),
     ]
     bad = [
-        H("h1", 2, 5, 11, h0 + pd + 30, pd + 30),        # conflicting invoice
-        H("h1", 1, 5, 11, h0 + pd - 10, pd - 10),        # relative expiry too low
-        H("h1", 1, 5, 10, h0 + pd + 30, pd + 30),        # declared total too low
-        H("h1", 3, 5, 11, h0 + pd + 30, pd + 30, decl=10, decl_len=-2),  # amountless + declared (conflicts with inv 1)
+        H("h1", 2, p2, N, h0 + pd + 30, pd + 30),        # conflicting invoice
+        H("h1", 1, p2, N, h0 + pd - 10, pd - 10),        # relative expiry too low
+        H("h1", 1, p2, N - 1, h0 + pd + 30, pd + 30),    # declared total too low
+        H("h1", 3, p2, N, h0 + pd + 30, pd + 30, decl=A, decl_len=-2),  # amountless + declared (conflicts with inv 1)
     ]
     other = [
-        H("h2", 1, 11, 11, h0 + pd + 30, pd + 30),       # foreign hash carrying an invoice for h1
-        H("h1", 1, 11, 11, h0 + pd + 30, pd + 30, fwd=True),   # plain forward
-        H("h1", 0, 11, 11, h0 + pd + 30, pd + 30),       # no invoice
-        H("h1", 5, 11, 11, h0 + pd + 30, pd + 30),       # self route hint (allowed by default)
+        H("h2", 1, N, N, h0 + pd + 30, pd + 30),       # foreign hash carrying an invoice for h1
+        H("h1", 1, N, N, h0 + pd + 30, pd + 30, fwd=True),   # plain forward
+        H("h1", 0, N, N, h0 + pd + 30, pd + 30),       # no invoice
+        H("h1", 5, N, N, h0 + pd + 30, pd + 30),       # self route hint (allowed by default)
     ]
     h2 = [
-        H("h2", 4, 6, 11, h0 + pd + 12, pd + 12),
-        H("h2", 4, 5, 11, h0 + pd + 22, pd + 22),
-        H("h2", 4, 11, 11, h0 + pd + 32, pd + 32),
+        H("h2", 4, p1, N, h0 + pd + 12, pd + 12),
+        H("h2", 4, p2, N, h0 + pd + 22, pd + 22),
+        H("h2", 4, N, N, h0 + pd + 32, pd + 32),
     ]
     amtless = [
-        H("h1", 3, 6, 11, h0 + pd + 10, pd + 10, decl=10, decl_len=-2),
-        H("h1", 3, 5, 11, h0 + pd + 20, pd + 20, decl=10, decl_len=-2),
-        H("h1", 3, 5, 11, h0 + pd + 20, pd + 20, decl=9, decl_len=-2),   # conflicting declared amount
+        H("h1", 3, p1, N, h0 + pd + 10, pd + 10, decl=A, decl_len=-2),
+        H("h1", 3, p2, N, h0 + pd + 20, pd + 20, decl=A, decl_len=-2),
+        H("h1", 3, p2, N, h0 + pd + 20, pd + 20, decl=A - 1, decl_len=-2),   # conflicting declared amount
     ]
     return {"good": good, "bad": bad, "other": other, "h2": h2, "amtless": amtless}
 
 PROBE = [H("h1", 1, 11, 11, 100 + 40 + 50, 90)]
+POLICIES = [  # (cfg, amount): varied policies (C12: the failure carries exactly the configured policy)
+    (CFG_A, 10), (CFG_A, 10), (CFG_B, 1000), (CFG_C, 100),
+    ({"base": 1000, "ppm": 5000, "pdelta": 1008, "sdelta": 34, "mpp": 2, "h0": 800000}, 100000),
+    ({"base": 65539, "ppm": 1000000, "pdelta": 144, "sdelta": 40, "mpp": 1, "h0": 500}, 7),
+]
 
-def rand_scenario(rng, family):
-    cfg = dict(CFG_A)
+def rand_scenario(rng, family, policies=False):
+    cfg, A = (rng.choice(POLICIES) if policies else (CFG_A, 10))
+    cfg = dict(cfg)
     if rng.random() < 0.3:
         cfg["mpp"] = rng.choice([0, 1, 3])
     if rng.random() < 0.2:
         cfg["selfhints"] = False
-    p = pool(cfg)
+    p = pool(cfg, A)
     hs = []
     if family == "base":
         hs = rng.sample(p["good"], rng.randint(1, 3))
@@ -83,18 +96,24 @@ def rand_scenario(rng, family):
     elif family == "other":
         hs = rng.sample(p["other"], rng.randint(1, 3)) + rng.sample(p["good"], rng.randint(0, 2))
     rng.shuffle(hs)
-    return {"cfg": cfg, "invs": INVS, "htlcs": hs, "probe": [dict(PROBE[0], exp=cfg["h0"] + cfg["pdelta"] + 50, rel=cfg["pdelta"] + 50)]}
+    N = need_of(cfg, A)
+    return {"cfg": cfg, "invs": invs_for(A), "htlcs": hs,
+            "probe": [H("h1", 1, N, N, cfg["h0"] + cfg["pdelta"] + 50, cfg["pdelta"] + 50)]}
 
-def rand_jobs(seed, n, families, crashes=(0, 1), wfaults=0, rfaults=0, probes=0, heights=False, freeze=False, start_run=1, steps=(25, 60)):
+def rand_jobs(seed, n, families, crashes=(0, 1), wfaults=0, rfaults=0, probes=0, heights=False, freeze=False, start_run=1, steps=(25, 60), direct=0, policies=False):
     rng = random.Random(seed)
     jobs = []
     for k in range(n):
         fam = families[k % len(families)]
-        scen = rand_scenario(rng, fam)
+        scen = rand_scenario(rng, fam, policies)
         r = {"seed": rng.getrandbits(48), "steps": rng.randint(*steps),
              "crashes": rng.choice(crashes), "wfaults": rng.randint(0, wfaults), "rfaults": rng.randint(0, rfaults),
              "maxparts": rng.choice([1, 2, 2, 3]), "maxpays": 3, "maxclock": 8, "heights": heights}
         if freeze:
             r["freeze"] = "h1"
+        if direct:
+            r["direct"] = direct
+            r["maxparts"] = rng.choice([0, 1, 2, 3])
+            scen["htlcs"] = []
         jobs.append({"run": start_run + k, "scen": scen, "rand": r, "probes": probes, "tag": fam})
     return jobs
